@@ -2,6 +2,7 @@
  *
  *   srv <mpr> <mts> <known> <unk> <prx> <res> <verdict> <pu> <dst> <hex>
  *   srvq … a sequence of datagrams from several peers at one context: see stepq() below
+ *   srvb … the same at a context with a block mode (COAP_BLOCK_USE_LIBCOAP ± COAP_BLOCK_SINGLE_BODY): see stepb() below
  *
  *   mpr      0|1          coap_mcast_per_resource() called on the context
  *   mts      8..          coap_context_set_max_token_size()
